@@ -168,12 +168,15 @@ PROPS = {
                      "the allocation model covers Hstartwrite of new elements, appending Hwrite on the last element of the file, in-place Hwrite, Hsync and close/reopen; every other allocation goes through HPgetdiskblock too but is not replayed on the model"],
     ),
     "C15": dict(
-        lean_props=["H4.Props.C15", "H4.Props.C15Fn"],
+        lean_props=["H4.Props.C15", "H4.Props.C15Fn", "H4.Props.C15Ndg"],
         engines=[
-            # one binary: cross-interface cases (T xapi ...: record codecs) + the real DFCIrle/DFCIunrle (T dfrle ...)
-            E("xapi", "e_xapi.c", model="xapi", quick=dict(cases=660, chunk=33), thorough=dict(cases=8800, seeds=4, chunk=110)),
+            # one binary: cross-interface cases (T xapi ...: record codecs, character attributes of old-style data sets) + the real DFCIrle/DFCIunrle (T dfrle ...)
+            E("xapi", "e_xapi.c", model="xapi", quick=dict(cases=676, chunk=34), thorough=dict(cases=8840, seeds=4, chunk=110)),
         ],
-        trusted_base=["only the shared record codecs are theorems (dfrle.c coder, big-endian field macros, DFTAG_SDD, DFTAG_ID/DFTAG_LD); "
+        trusted_base=["the descriptive metadata of an old-style data set (DFSDsetdatastrs/dimstrs/range/cal/fillvalue, 0..5 labels and 0..5 descriptions per NDG written through DFAN and AN in any order "
+                      "of lengths, several annotated data sets per file, one or two SD sessions per process, every checked-in old-style file): each SD attribute is compared with the DFSD / AN view on the "
+                      "implementation (keys xapi-*:attr-*, no shadow copy needed); the character attributes (coordsys, remarks-<k>, anno_label-<k>, long_name, units, format) are also recomputed by the Lean model "
+                      "H4.NdgAttrs from the AN texts and raw elements (T xapi ndgattrs); numeric attributes, dimension strings and SDgetanndatainfo are implementation-side only","only the shared record codecs are theorems (dfrle.c coder, big-endian field macros, DFTAG_SDD, DFTAG_ID/DFTAG_LD); "
                       "group records (DFdi*), Vgroup/Vdata glue, number conversion, nc* <-> SD and the legacy-file readers are checked by the "
                       "xapi engine on the implementation only (shadow copy in C as oracle)",
                       "the life of an object over several sessions (created through SD, nc or DFSD; first data, hyperslab overwrite, appended records, attributes, dimension scales, "
@@ -183,7 +186,8 @@ PROPS = {
         assumptions=["row lengths fit the C types: len <= INT32_MAX - 120 (DFCIrle's `i + 120 > len` is int32 arithmetic)",
                      "DFTAG_SDD: rank 1..32767, sizes 0..2^31-1, refs < 65536; DFTAG_ID/LD: int32 sizes, int16 ncomponents/interlace, uint16 tags/refs",
                      "DFSDclear/DFSDrestart, DFR8restart, DF24restart, DFPrestart, DFANclear before each single-file session (their static state is keyed by file NAME)",
-                     "lossy coders (JPEG, IMCOMP) excluded by the property's own text"],
+                     "lossy coders (JPEG, IMCOMP) excluded by the property's own text",
+                     "SD presents labels, descriptions and data strings as C strings (strlen): texts with an embedded NUL are expected up to the NUL (generated texts have none; STAT ndg_text_nul counts legacy ones)"],
     ),
     "C02": dict(
         lean_props=["H4.Props.C02"],
